@@ -769,6 +769,27 @@ M('C04', 'python split worker leaves flag', NPC, """    res._qdata = new_qdata
     res._data = new_data""", """    res._qdata = new_qdata
     res._data = new_data""", 'PAIR-effects')
 
+M('C04', 'python _make_stride reads shape shifted by one (round-3 seed a)', CH,
+  """        for a in range(0, L - 1):
+            stride *= shape[a]
+            res[a + 1] = stride""", """        for a in range(1, L):
+            stride *= shape[a]
+            res[a] = stride""", 'PAIR-regions')
+M('C04', 'python _make_stride loop re-indexed consistently (equivalent)', CH,
+  """        for a in range(0, L - 1):
+            stride *= shape[a]
+            res[a + 1] = stride""", """        for a in range(1, L):
+            stride *= shape[a - 1]
+            res[a] = stride""", None, expect='silent')
+M('C04', 'python tensordot skips the transposition on the sorted complement (round-3 seed b)', NPC,
+  "        a.itranspose(not_axes_a + axes_a)\n",
+  "        if not_axes_a != list(range(len(not_axes_a))):\n            a.itranspose(not_axes_a + axes_a)\n",
+  'PAIR-skip-transpose')
+M('C04', 'python tensordot skips the transposition on the ordered contracted axes (equivalent)', NPC,
+  "        a.itranspose(not_axes_a + axes_a)\n",
+  "        if axes_a != list(range(a.rank - len(axes_a), a.rank)):\n            a.itranspose(not_axes_a + axes_a)\n",
+  None, expect='silent')
+
 # ---------------------------------------------------------------- C16 / C19
 M('C16', 'gram_schmidt keeps vectors below rcond', KRY,
   "        if n > rcond:\n            iscale_prefactor(vec, 1.0 / n)\n            res.append(vec)",
